@@ -6,6 +6,7 @@ from . import common as C
 TARGETS = {
     "asan": ["drv_sorted", "drv_pipeline", "drv_threads", "drv_lifecycle", "drv_pattern", "drv_json", "drv_config", "drv_signal"],
     "plain": ["drv_rotation", "drv_fatal"],
+    "net": ["drv_http"],
 }
 
 
